@@ -29,7 +29,10 @@ for t in missing[:20]:
     # (test_jacobi.test_add_same_scale_points draws b_mul == order and then fails on the unchanged tree too)
     cls, name = t.split("::")
     parts = cls.split(".")
-    path = "/".join(parts[:-1]) + ".py::" + parts[-1] + "::" + name
+    if os.path.exists(os.path.join(repo, "/".join(parts) + ".py")):
+        path = "/".join(parts) + ".py::" + name                    # module-level test function
+    else:
+        path = "/".join(parts[:-1]) + ".py::" + parts[-1] + "::" + name
     ok = 0
     for _ in range(4):
         r = subprocess.run(["/venv/bin/python", "-m", "pytest", "-q", "-p", "no:cacheprovider", path], cwd=repo, capture_output=True, text=True, preexec_fn=_sigint_default)
